@@ -104,6 +104,15 @@ package remedies
 //@ ghost func rpInv(p *RetryPlugin, cfg *sharedConfig.RetryConfig) bool = forall(s, string, in(s, rpCache(p).cache) ==> 1 <= rpCache(p).cache[s].value.attemptsLeft && rpCache(p).cache[s].value.attemptsLeft <= cfg.Attempts)
 //@ ghost func inSomeRange(status int, cfg *sharedConfig.RetryConfig) bool = exists(j, 0, len(cfg.Conditions.StatusCode), cfg.Conditions.StatusCode[j].From <= status && status <= cfg.Conditions.StatusCode[j].To)
 
+// the plugin's state store never refuses a write: it is an in-memory cache without a size limit (OnResponse relies on it:
+// a refused write would leave the attempts counter where it was and the sequence would be retried again and again)
+//@ func NewRetryPlugin
+//@   prop C17
+//@   requires clock != nil
+//@   allocates RetryPlugin, MemoryCache, map
+//@   modifies nothing
+//@   ensures[state-store-never-refuses] rpOK(result) && forall(s, string, !in(s, rpCache(result).cache))
+
 //@ func (*RetryPlugin).OnResponse
 //@   prop C17
 //@   requires rpOK(plugin) && remedyConfig != nil && remedyConfig.Attempts >= 1
